@@ -478,7 +478,9 @@ def add_ill(prog, rng, kind, tag, avoid=()):
     if kind == "evalineval":
         gn = f"{pre}g"
         _ill_fn(prog, gn, mod, "plain")
-        host["body"].append({"t": "eval", "f": gn, "form": "direct"})
+        # how the module spells dds.eval: attribute of the package, the bare name (which shadows the builtin),
+        # an alias of the function or an alias of the package
+        host["body"].append({"t": "eval", "f": gn, "form": "direct", "spell": rng.choice(["dds", "dds", "bare", "alias", "mod"])})
         return entry, "EVAL_IN_EVAL"
     raise ValueError(kind)
 
